@@ -32,7 +32,7 @@ def failing_commands(spec, p, rng):
         ('put block out of range', ['put', '-d', p, '-f', '999999', '-t', 'block'], bytes(512)),
         ('put sector out of range', ['put', '-d', p, '-f', '200,0,1', '-t', 'sec'], bytes(256)),
         ('put sector list mismatch', ['put', '-d', p, '-f', '0,0,1,,0,0,2', '-t', 'sec'], bytes(100)),
-        ('put track on unsupported', ['put', '-d', p, '-f', '99,0', '-t', 'rawtrack'], bytes(100)),
+        ('put track on unsupported', ['put', '-d', p, '-f', '99,0', '-t', 'raw_track'], bytes(100)),
         ('put meta malformed', ['put', '-d', p, '-t', 'meta'], b'{"nosuch": {"x": '),
         ('put meta wrong type', ['put', '-d', p, '-t', 'meta'], b'{"nosuchtype": {"x": "1"}}'),
         ('put empty stdin', ['put', '-d', p, '-f', 'E' + ('.X' if '.' in n1 else ''), '-t', 'txt'], b''),
